@@ -46,7 +46,9 @@ class ForeverBreakWriteHandler(AbstractWriteHandler):
     def write_content(self) -> Vertex | None:
         """Print a break and end"""
         logger.debug("Handling a break_loop; (%s)...", self.start_vertex["op"])
-        self.decompiler.source_map_add_opcode(self.start_vertex["op"].offset)
+        if not self.start_vertex["op"].synthetic:
+            # An inserted break is not an operation of its own, it must not replace the entry of the operation before it.
+            self.decompiler.source_map_add_opcode(self.start_vertex["op"].offset)
         self.decompiler.write_stmnt("break_loop;")
         exits = self.start_vertex.out_edges()
         if len(exits) == 1:
